@@ -59,3 +59,19 @@ def run(chk):
         chk.cov['distinct_nontrivial'] = len(keys)
         for l in sorted(keys)[::max(1, len(keys) // 5)][:6]:
             chk.sample(l)
+        # growth chains of the zeroing re-allocation family with fully used old blocks (exact size classes): contents of the old block must survive
+        h = os.path.join(d, 'c04')
+        ok, log = V.cc_harness(os.path.join(V.HARNESS, 'c04.c'), h, flags=list(V.RELEASE) + ['-DVERIF_STATIC_C="%s/src/static.c"' % V.REPO])
+        if not ok:
+            chk.broken_tie('growth-chain harness does not compile against the current tree', log[-1500:]); return
+        jobs = [([h, str(sd), '0', '0'], None, 400) for sd in range(chk.seed, chk.seed + (4 if chk.tier == 'thorough' else 1))]
+        for (cmd, _, _), (rc, out, err) in zip(jobs, V.pmap(jobs)):
+            args = {'cmd': 'harness/c04 ' + ' '.join(cmd[1:]), 'how_to_run': 'gcc -DNDEBUG -DMI_BUILD_RELEASE -I/repo/include -DVERIF_STATIC_C=\\"/repo/src/static.c\\" harness/c04.c -lpthread; ./a.out ' + ' '.join(cmd[1:])}
+            if rc != 0 or 'DONE' not in out:
+                chk.violation('C05/growth-chain-crash', 'allocator crashed in the growth-chain workload: %s' % (err or out)[-300:].replace('\n', ' '), args); continue
+            for l in out.splitlines():
+                q = l.split()
+                if q and q[0] == 'FAIL' and q[1] in ('rezalloc_lost_contents', 'rezalloc_lost_alignment', 'rezalloc_failed'):
+                    chk.violation('C05/' + q[1], ' '.join(q[2:])[:400], args); break
+                if q and q[0] == 'STAT' and q[1] == 'chain_steps':
+                    chk.count(int(q[2])); chk.extra['growth_chain_steps'] = chk.extra.get('growth_chain_steps', 0) + int(q[2])
